@@ -36,8 +36,8 @@ static char uxf_dir[600], ctl_dir[600];
 
 enum fam { F_INJECT, F_RLIMIT, F_BURST, F_FORK, F_PLAIN };
 static const char *const fam_name[] = { "inject", "rlimit", "burst", "fork-cleanup", "plain" };
-enum flav { FL_PLAIN, FL_DNS, FL_LOCAL_ADDR, FL_TLS_BY_VALUE, FL_BAD_ATTR, FL_REFUSED, FL_ADDR_IN_USE, FL_CTL, FL_ACCEPT_EMPTY, FL_BLOCKING_ACCEPT, FL_CONNECTING, FL_CTL_LONG, FL_N };
-static const char *const flav_name[] = { "plain", "dns-name", "local-addr", "tls-by-value", "bad-attr", "refused", "addr-in-use", "ctl", "accept-empty", "blocking-accept", "connect-pending", "ctl-long-dir" };
+enum flav { FL_PLAIN, FL_DNS, FL_LOCAL_ADDR, FL_TLS_BY_VALUE, FL_BAD_ATTR, FL_REFUSED, FL_ADDR_IN_USE, FL_CTL, FL_ACCEPT_EMPTY, FL_BLOCKING_ACCEPT, FL_CONNECTING, FL_CTL_LONG, FL_ACCEPT_BLOCKING, FL_N };
+static const char *const flav_name[] = { "plain", "dns-name", "local-addr", "tls-by-value", "bad-attr", "refused", "addr-in-use", "ctl", "accept-empty", "blocking-accept", "connect-pending", "ctl-long-dir", "accept-map-blocking" };
 
 struct scn { enum vtp tp; enum flav fl; };
 struct site { int scn; int call; int idx; int err; };
@@ -201,6 +201,7 @@ static void scenario(const struct scn *sc, vrng *r, struct live *lv_out)
         xcm_attr_map_add_bin(sm, "tls.cert", veng_leaf->cert_pem, strlen(veng_leaf->cert_pem)); xcm_attr_map_add_bin(sm, "tls.key", veng_leaf->key_pem, strlen(veng_leaf->key_pem)); xcm_attr_map_add_bin(sm, "tls.tc", veng_ca->cert_pem, strlen(veng_ca->cert_pem));
         xcm_attr_map_add_bin(cm, "tls.cert", veng_leaf->cert_pem, strlen(veng_leaf->cert_pem)); xcm_attr_map_add_bin(cm, "tls.key", veng_leaf->key_pem, strlen(veng_leaf->key_pem)); xcm_attr_map_add_bin(cm, "tls.tc", veng_ca->cert_pem, strlen(veng_ca->cert_pem));
     }
+    if (sc->fl == FL_ACCEPT_BLOCKING) xcm_attr_map_add_bool(am, "xcm.blocking", true);      /* the accepted connection is to be a blocking one; the server itself stays non-blocking */
     if (sc->fl == FL_BAD_ATTR) {
         /* a creation map whose last entry is refused: the err_close path of a socket that never connected */
         if (vrnd_p(r, 50)) xcm_attr_map_add_str(cm, "xcm.nonexistent", "x"); else if (vtp_is_tcp_based(sc->tp) && sc->tp != TP_UTLS_UX) xcm_attr_map_add_int64(cm, "tcp.keepalive_time", -1); else xcm_attr_map_add_int64(cm, "xcm.blocking", 1);
